@@ -1,4 +1,5 @@
 pub mod c0607;
+pub mod c08;
 pub mod c09;
 pub mod c12;
 pub mod c18;
@@ -23,6 +24,7 @@ pub fn gen(prop: &str, thorough: bool, seed: u64, out: &mut Vec<String>) {
         "C11" => lef::gen_c11(thorough, &mut rng, out),
         "C06" => c0607::gen_c06(thorough, &mut rng, out),
         "C07" => c0607::gen_c07(thorough, &mut rng, out),
+        "C08" => c08::gen(thorough, &mut rng, out),
         "C09" => c09::gen(thorough, &mut rng, out),
         "C12" => c12::gen(thorough, &mut rng, out),
         "C13" => c13::gen(thorough, &mut rng, out),
@@ -47,6 +49,7 @@ pub fn oracle(prop: &str, line: &str) -> String {
         "C11" => lef::oracle_c11(line),
         "C06" => c0607::oracle_c06(line),
         "C07" => c0607::oracle_c07(line),
+        "C08" => c08::oracle(line),
         "C09" => c09::oracle(line),
         "C12" => c12::oracle(line),
         "C13" => c13::oracle(line),
@@ -66,6 +69,7 @@ pub fn tag(prop: &str, line: &str) -> String {
         "C01" | "C02" | "C03" | "C10" => gds::tag(line),
         "C04" | "C05" | "C11" => lef::tag(line),
         "C06" | "C07" => c0607::tag(line),
+        "C08" => c08::tag(line),
         "C09" => c09::tag(line),
         "C12" => c12::tag(line),
         "C13" => c13::tag(line),
